@@ -79,18 +79,29 @@ def _supports_nulls(dtype: Any) -> bool:
     return not (isinstance(dtype, np.dtype) and dtype.kind in "iub")
 
 
+def _keep_first_null(null_mask: Sequence[bool]) -> List[bool]:
+    """Null mask with at most one null, since repeated nulls are duplicates."""
+    first = list(null_mask).index(True) if any(null_mask) else -1
+    return [i == first for i in range(len(null_mask))]
+
+
 @composite
-def null_field_masks(draw, strategy: Optional[SearchStrategy]):
+def null_field_masks(
+    draw, strategy: Optional[SearchStrategy], unique: bool = False
+):
     """Strategy for masking a column/index with null values.
 
     :param strategy: an optional hypothesis strategy. If specified, the
         pandas dtype strategy will be chained onto this strategy.
+    :param unique: whether the values of the column/index must be unique.
     """
     val = draw(strategy)
     if not _supports_nulls(val.dtype):
         return val
     size = val.shape[0]
     null_mask = draw(st.lists(st.booleans(), min_size=size, max_size=size))
+    if unique:
+        null_mask = _keep_first_null(null_mask)
     if isinstance(val, pd.Index):
         val = val.to_series()
         val = _mask(val, null_mask)
@@ -103,6 +114,7 @@ def null_dataframe_masks(
     draw,
     strategy: Optional[SearchStrategy],
     nullable_columns: Dict[str, bool],
+    unique_columns: Optional[Sequence] = None,
 ):
     """Strategy for masking a values in a pandas DataFrame.
 
@@ -110,6 +122,7 @@ def null_dataframe_masks(
         pandas dtype strategy will be chained onto this strategy.
     :param nullable_columns: dictionary where keys are column names and
         values indicate whether that column is nullable.
+    :param unique_columns: names of the columns whose values must be unique.
     """
     val = draw(strategy)
     size = val.shape[0]
@@ -130,8 +143,14 @@ def null_dataframe_masks(
     )
     null_mask = draw(mask_st)
     for column in val:
-        if _supports_nulls(val[column].dtype):
-            val[column] = _mask(val[column], null_mask[column])
+        if not _supports_nulls(val[column].dtype):
+            continue
+        column_mask = null_mask[column]
+        if unique_columns is not None and column in unique_columns:
+            column_mask = pd.Series(
+                _keep_first_null(column_mask), index=column_mask.index
+            )
+        val[column] = _mask(val[column], column_mask)
     return val
 
 
@@ -873,7 +892,7 @@ def series_strategy(
         .map(partial(convert_dtype, col_dtype=pandera_dtype.type))
     )
     if nullable:
-        strategy = null_field_masks(strategy)
+        strategy = null_field_masks(strategy, unique=bool(unique))
 
     def undefined_check_strategy(strategy, check):
         """Strategy for checks with undefined strategies."""
@@ -978,7 +997,7 @@ def index_strategy(
     if name is not None:
         strategy = strategy.map(lambda index: index.rename(name))
     if nullable:
-        strategy = null_field_masks(strategy)
+        strategy = null_field_masks(strategy, unique=bool(unique))
     return strategy
 
 
@@ -1189,7 +1208,11 @@ def dataframe_strategy(
         strategy = strategy.map(partial(convert_dtypes, col_dtypes=col_dtypes))
 
         if size is not None and size > 0 and any(nullable_columns.values()):
-            strategy = null_dataframe_masks(strategy, nullable_columns)
+            strategy = null_dataframe_masks(
+                strategy,
+                nullable_columns,
+                [name for name, col in expanded_columns.items() if col.unique],
+            )
 
         if index is not None:
             strategy = set_pandas_index(strategy, index)
@@ -1257,5 +1280,9 @@ def multiindex_strategy(
             )
 
     if any(nullable_index.values()):
-        strategy = null_dataframe_masks(strategy, nullable_index)
+        strategy = null_dataframe_masks(
+            strategy,
+            nullable_index,
+            [name for name, ix in zip(index_dtypes, indexes) if ix.unique],
+        )
     return strategy.map(pd.MultiIndex.from_frame)
